@@ -157,7 +157,7 @@ impl Op {
     /// is the operation replayed on the Lean model (correspondence), or checked by the oracles only?
     pub fn modelled(&self) -> bool {
         // (an iterator that is LEAKED instead of dropped: oracles only)
-        !matches!(self, Op::Alt(6, _))
+        !matches!(self, Op::Alt(6, inner) if !matches!(**inner, Op::Drain(..)))
     }
     /// does the operation take the vector by value?
     pub fn consumes(&self) -> bool {
